@@ -3,6 +3,15 @@
   reformat : every module re-emitted by ast.unparse (comments gone, layout and line numbers change)
   rename   : every non-parameter local variable of every function renamed (alpha-renaming)
   pad      : a no-op statement inserted at the top of every function body (all line numbers shift)
+  hoist    : every `if <test containing a call>:` becomes `_hN = <test>; if _hN:` (guards through a local)
+  invert   : every plain `if c: A else: B` becomes `if not c: B else: A` (guard polarity)
+  nest     : `if c: ...return/raise/continue/break` + following statements -> the rest moves into `else:`
+  splitand : `if a and b: X` (no else) -> `if a: if b: X`
+  extend   : `xs += ys` on a list-typed local -> `xs.extend(ys)`
+  retlocal : `return <expr>` -> `_rN = <expr>; return _rN`
+  swapeq   : `a == b` -> `b == a`, `a != b` -> `b != a`
+  unnest   : `if c: ...return/raise/continue/break else: REST` -> else removed, REST follows
+  earlycontinue : `for ...: if c: BODY` -> `for ...: if not c: continue; BODY`
 
 usage: python -m selftest.transforms [reformat|rename|pad|all]   (exit 2 when a verdict changes)
 """
@@ -98,6 +107,199 @@ class Padder(ast.NodeTransformer):
     visit_AsyncFunctionDef = visit_FunctionDef
 
 
+class Hoister(ast.NodeTransformer):
+    """`if <test with a call>:` -> `_hN = <test>; if _hN:` (plain `if` statements only, never an `elif`)."""
+
+    def __init__(self):
+        self.n = 0
+
+    def _block(self, stmts):
+        out = []
+        for st in stmts:
+            st = self.visit(st)
+            if isinstance(st, ast.If) and any(isinstance(x, ast.Call) for x in ast.walk(st.test)) and \
+                    not any(isinstance(x, (ast.NamedExpr, ast.Yield, ast.YieldFrom, ast.Await)) for x in ast.walk(st.test)):
+                self.n += 1
+                nm = "_h%d" % self.n
+                out.append(ast.Assign(targets=[ast.Name(id=nm, ctx=ast.Store())], value=st.test))
+                st.test = ast.Name(id=nm, ctx=ast.Load())
+            out.append(st)
+        return out
+
+    def generic_visit(self, node):
+        for fld in ("body", "orelse", "finalbody"):
+            v = getattr(node, fld, None)
+            if isinstance(v, list) and v and isinstance(v[0], ast.stmt):
+                if fld == "orelse" and isinstance(node, ast.If) and len(v) == 1 and isinstance(v[0], ast.If):
+                    # an elif: keep its test in place, but transform inside it
+                    v[0] = self.generic_visit(v[0])
+                    continue
+                setattr(node, fld, self._block(v))
+        for h in getattr(node, "handlers", []) or []:
+            h.body = self._block(h.body)
+        for c in getattr(node, "cases", []) or []:
+            c.body = self._block(c.body)
+        return node
+
+
+class Inverter(ast.NodeTransformer):
+    """`if c: A else: B` -> `if not c: B else: A` for plain if/else statements (no elif)."""
+
+    def visit_If(self, node):
+        self.generic_visit(node)
+        if node.orelse and not (len(node.orelse) == 1 and isinstance(node.orelse[0], ast.If)):
+            node.test = ast.UnaryOp(op=ast.Not(), operand=node.test)
+            node.body, node.orelse = node.orelse, node.body
+        return node
+
+
+class Nester(ast.NodeTransformer):
+    """`if c: ...; return/raise/continue/break` followed by more statements -> the rest moves into `else:`."""
+
+    def _block(self, stmts):
+        out = []
+        i = 0
+        stmts = [self.visit(st) for st in stmts]
+        while i < len(stmts):
+            st = stmts[i]
+            if isinstance(st, ast.If) and not st.orelse and st.body and \
+                    isinstance(st.body[-1], (ast.Return, ast.Raise, ast.Continue, ast.Break)) and i + 1 < len(stmts):
+                st.orelse = self._block(stmts[i + 1:])
+                out.append(st)
+                return out
+            out.append(st)
+            i += 1
+        return out
+
+    def generic_visit(self, node):
+        for fld in ("body", "orelse", "finalbody"):
+            v = getattr(node, fld, None)
+            if isinstance(v, list) and v and isinstance(v[0], ast.stmt):
+                if fld == "orelse" and isinstance(node, ast.If) and len(v) == 1 and isinstance(v[0], ast.If):
+                    v[0] = self.generic_visit(v[0])
+                    continue
+                setattr(node, fld, self._block(v))
+        for h in getattr(node, "handlers", []) or []:
+            h.body = self._block(h.body)
+        return node
+
+
+class AndSplitter(ast.NodeTransformer):
+    """`if a and b: X` (no else) -> `if a: if b: X`."""
+
+    def visit_If(self, node):
+        self.generic_visit(node)
+        if not node.orelse and isinstance(node.test, ast.BoolOp) and isinstance(node.test.op, ast.And) and len(node.test.values) == 2:
+            a, b = node.test.values
+            inner = ast.If(test=b, body=node.body, orelse=[])
+            node.test = a
+            node.body = [inner]
+        return node
+
+
+class Extender(ast.NodeTransformer):
+    """`xs += <call or name>` -> `xs.extend(...)` where xs is a list-typed local (initialised as `xs = []` in the function)."""
+
+    def visit_FunctionDef(self, node):
+        lists = {t.id for st in ast.walk(node) if isinstance(st, ast.Assign) and isinstance(st.value, ast.List) and not st.value.elts
+                 for t in st.targets if isinstance(t, ast.Name)}
+        nonlist = {t.id for st in ast.walk(node) if isinstance(st, ast.Assign) and not isinstance(st.value, (ast.List, ast.ListComp))
+                   for t in st.targets if isinstance(t, ast.Name)}
+        self._lists = getattr(self, "_lists", [])
+        self._lists.append(lists - nonlist)
+        self.generic_visit(node)
+        self._lists.pop()
+        return node
+
+    visit_AsyncFunctionDef = visit_FunctionDef
+
+    def visit_AugAssign(self, node):
+        if getattr(self, "_lists", None) and isinstance(node.op, ast.Add) and isinstance(node.target, ast.Name) and \
+                node.target.id in self._lists[-1] and isinstance(node.value, (ast.Call, ast.Name, ast.Attribute)):
+            return ast.Expr(value=ast.Call(func=ast.Attribute(value=ast.Name(id=node.target.id, ctx=ast.Load()), attr="extend",
+                                                              ctx=ast.Load()), args=[node.value], keywords=[]))
+        return node
+
+
+class RetLocal(ast.NodeTransformer):
+    """`return <expr>` (not a bare name/constant) -> `_rN = <expr>; return _rN`."""
+
+    def __init__(self):
+        self.n = 0
+
+    def _block(self, stmts):
+        out = []
+        for st in stmts:
+            st = self.visit(st)
+            if isinstance(st, ast.Return) and st.value is not None and not isinstance(st.value, (ast.Name, ast.Constant)) and \
+                    not any(isinstance(x, (ast.Yield, ast.YieldFrom, ast.Await)) for x in ast.walk(st.value)):
+                self.n += 1
+                nm = "_r%d" % self.n
+                out.append(ast.Assign(targets=[ast.Name(id=nm, ctx=ast.Store())], value=st.value))
+                st.value = ast.Name(id=nm, ctx=ast.Load())
+            out.append(st)
+        return out
+
+    def generic_visit(self, node):
+        for fld in ("body", "orelse", "finalbody"):
+            v = getattr(node, fld, None)
+            if isinstance(v, list) and v and isinstance(v[0], ast.stmt):
+                setattr(node, fld, self._block(v))
+        for h in getattr(node, "handlers", []) or []:
+            h.body = self._block(h.body)
+        return node
+
+
+class SwapEq(ast.NodeTransformer):
+    """`a == b` -> `b == a`, `a != b` -> `b != a` (single comparison)."""
+
+    def visit_Compare(self, node):
+        self.generic_visit(node)
+        if len(node.ops) == 1 and isinstance(node.ops[0], (ast.Eq, ast.NotEq)):
+            node.left, node.comparators = node.comparators[0], [node.left]
+        return node
+
+
+class Unnester(ast.NodeTransformer):
+    """`if c: ...return/raise/continue/break else: REST` (no elif) -> `if c: ...; REST` (else removed)."""
+
+    def _block(self, stmts):
+        out = []
+        for st in stmts:
+            st = self.visit(st)
+            if isinstance(st, ast.If) and st.orelse and not (len(st.orelse) == 1 and isinstance(st.orelse[0], ast.If)) and \
+                    st.body and isinstance(st.body[-1], (ast.Return, ast.Raise, ast.Continue, ast.Break)):
+                rest, st.orelse = st.orelse, []
+                out.append(st)
+                out.extend(rest)
+            else:
+                out.append(st)
+        return out
+
+    def generic_visit(self, node):
+        for fld in ("body", "orelse", "finalbody"):
+            v = getattr(node, fld, None)
+            if isinstance(v, list) and v and isinstance(v[0], ast.stmt):
+                if fld == "orelse" and isinstance(node, ast.If) and len(v) == 1 and isinstance(v[0], ast.If):
+                    v[0] = self.generic_visit(v[0])
+                    continue
+                setattr(node, fld, self._block(v))
+        for h in getattr(node, "handlers", []) or []:
+            h.body = self._block(h.body)
+        return node
+
+
+class EarlyContinue(ast.NodeTransformer):
+    """`for ...: if c: BODY` (loop body is that single if, no else) -> `for ...: if not c: continue; BODY`."""
+
+    def visit_For(self, node):
+        self.generic_visit(node)
+        if len(node.body) == 1 and isinstance(node.body[0], ast.If) and not node.body[0].orelse:
+            i = node.body[0]
+            node.body = [ast.If(test=ast.UnaryOp(op=ast.Not(), operand=i.test), body=[ast.Continue()], orelse=[])] + i.body
+        return node
+
+
 def transform(src, kind):
     import warnings
     with warnings.catch_warnings():
@@ -107,6 +309,24 @@ def transform(src, kind):
         tree = Renamer().visit(tree)
     elif kind == "pad":
         tree = Padder().visit(tree)
+    elif kind == "hoist":
+        tree = Hoister().visit(tree)
+    elif kind == "invert":
+        tree = Inverter().visit(tree)
+    elif kind == "retlocal":
+        tree = RetLocal().visit(tree)
+    elif kind == "swapeq":
+        tree = SwapEq().visit(tree)
+    elif kind == "unnest":
+        tree = Unnester().visit(tree)
+    elif kind == "earlycontinue":
+        tree = EarlyContinue().visit(tree)
+    elif kind == "nest":
+        tree = Nester().visit(tree)
+    elif kind == "splitand":
+        tree = AndSplitter().visit(tree)
+    elif kind == "extend":
+        tree = Extender().visit(tree)
     ast.fix_missing_locations(tree)
     out = ast.unparse(tree)
     import warnings
@@ -138,7 +358,7 @@ def main(argv):
     import warnings
     warnings.simplefilter("ignore")
     root = os.environ.get("HED_REPO", "/repo")
-    kinds = ["reformat", "rename", "pad"] if not argv or argv[0] == "all" else argv
+    kinds = ["reformat", "rename", "pad", "hoist", "invert", "nest", "splitand", "extend", "retlocal", "swapeq", "unnest", "earlycontinue"] if not argv or argv[0] == "all" else argv
     srcs = read_sources(root)
     base = verdicts(root, {})
     bad = 0
